@@ -365,6 +365,108 @@ pub fn check_seed_pair(c: &SeedPairCase) -> CheckResult {
     Ok(CaseInfo::new(c.i != c.j).class(if c.i == c.j { "1-bit" } else { "2-bit" }))
 }
 
+/// The same key material handed to two *different* constructors, back to back: from_seed(s),
+/// seed_from_u64(x) and from_rng(source delivering s) with s = x in little-endian bytes followed
+/// by `tail` (mostly zeros). Anything process-wide keyed on the key material but not on the route
+/// confuses exactly these.
+#[derive(Clone, Debug, Serialize, Deserialize)]
+pub struct CtorPairCase {
+    pub ty: Ty,
+    pub x: u64,
+    #[serde(with = "crate::hexser")]
+    pub tail: Vec<u8>,
+    /// constructor routes 0 = from_seed, 1 = seed_from_u64, 2 = from_rng
+    pub first: u8,
+    pub second: u8,
+}
+
+pub fn check_ctor_pair(c: &CtorPairCase) -> CheckResult {
+    let len = c.ty.info().seed_len;
+    let mut seed = c.x.to_le_bytes().to_vec();
+    seed.extend_from_slice(&c.tail);
+    seed.resize(len, 0);
+    let build = |route: u8, seed: &[u8], x: u64| -> Box<dyn Gen> {
+        match route % 3 {
+            0 => crate::adapter::from_seed(c.ty, seed),
+            1 => crate::adapter::seed_from_u64(c.ty, x),
+            _ => crate::adapter::from_rng(c.ty, &mut crate::src::ByteSrc::new(crate::src::SrcSpec { prefix: seed.to_vec(), salt: 1, words_differ: false })),
+        }
+    };
+    let unrelated: Vec<u8> = seed.iter().map(|b| !b ^ 0x5a).collect();
+    let ux = !c.x ^ 0x5a5a_5a5a;
+    let take = |g: &mut dyn Gen| -> [u64; 3] { [g.next_native(), g.next_native(), g.next_native()] };
+    // references: each route's generator built right after an unrelated one of the same route
+    let _u = build(c.first, &unrelated, ux);
+    let _u1 = build(c.second, &unrelated, ux);
+    let want_a = take(&mut *build(c.first, &seed, c.x));
+    let _u2 = build(c.first, &unrelated, ux);
+    let _u3 = build(c.second, &unrelated, ux);
+    let want_b = take(&mut *build(c.second, &seed, c.x));
+    let _u4 = build(c.second, &unrelated, ux);
+    // back to back: a, then b, then a again
+    let got_a1 = take(&mut *build(c.first, &seed, c.x));
+    let got_b = take(&mut *build(c.second, &seed, c.x));
+    let got_a2 = take(&mut *build(c.first, &seed, c.x));
+    let names = ["from_seed", "seed_from_u64", "from_rng"];
+    for (what, want, got) in [("first route, built after an unrelated instance", want_a, got_a1), ("second route, built right after the first", want_b, got_b), ("first route, built right after the second", want_a, got_a2)] {
+        if got != want {
+            return Err(Fail::new(format!("C19:depends-on-previous-instance:{}", c.ty.name()), format!("the same key material given to {} and then to {}: the generator of the {} returns other values than when built after unrelated generators", names[(c.first % 3) as usize], names[(c.second % 3) as usize], what)).exp_act(format!("{:x?}", want), format!("{:x?}", got)));
+        }
+    }
+    Ok(CaseInfo::new(c.first % 3 != c.second % 3).class(format!("{}-then-{}", names[(c.first % 3) as usize], names[(c.second % 3) as usize])).class_if(c.tail.iter().all(|&b| b == 0), "zero-padded-64-bit-key").class_if(c.x == 0, "zero-key"))
+}
+
+/// the same 64-bit value / the same leading seed bytes handed to the same constructor route of
+/// two *different* generator types, back to back (a shared helper that remembers its last
+/// expansion regardless of the requested length or type confuses exactly these)
+#[derive(Clone, Debug, Serialize, Deserialize)]
+pub struct CrossTypeCase {
+    pub a: Ty,
+    pub b: Ty,
+    pub x: u64,
+    /// 0 = seed_from_u64(x) for both, 1 = from_seed(bytes keyed on x, cut to each type's length)
+    pub route: u8,
+}
+
+pub fn check_cross_type(c: &CrossTypeCase) -> CheckResult {
+    let seed_for = |ty: Ty, x: u64| -> Vec<u8> {
+        let mut z = x;
+        (0..ty.info().seed_len)
+            .map(|i| {
+                if i < 8 {
+                    x.to_le_bytes()[i]
+                } else {
+                    z = z.wrapping_mul(0x5851f42d4c957f2d).wrapping_add(0x14057b7ef767814f);
+                    (z >> 56) as u8
+                }
+            })
+            .collect()
+    };
+    let build = |ty: Ty, x: u64| -> Box<dyn Gen> {
+        if c.route % 2 == 0 {
+            crate::adapter::seed_from_u64(ty, x)
+        } else {
+            crate::adapter::from_seed(ty, &seed_for(ty, x))
+        }
+    };
+    let ux = !c.x ^ 0x5a5a_5a5a;
+    let take = |g: &mut dyn Gen| -> [u64; 3] { [g.next_native(), g.next_native(), g.next_native()] };
+    let _u = build(c.a, ux);
+    let want_a = take(&mut *build(c.a, c.x));
+    let _u2 = build(c.b, ux);
+    let want_b = take(&mut *build(c.b, c.x));
+    let _u3 = build(c.b, ux);
+    let got_a1 = take(&mut *build(c.a, c.x));
+    let got_b = take(&mut *build(c.b, c.x));
+    let got_a2 = take(&mut *build(c.a, c.x));
+    for (what, ty, want, got) in [("first type, built after an unrelated instance", c.a, want_a, got_a1), ("second type, built right after the first", c.b, want_b, got_b), ("first type, built right after the second", c.a, want_a, got_a2)] {
+        if got != want {
+            return Err(Fail::new(format!("C19:depends-on-previous-instance:{}", ty.name()), format!("the same value given to {} of {} and then of {}: the generator of the {} returns other values than when built after unrelated generators", if c.route % 2 == 0 { "seed_from_u64" } else { "from_seed" }, c.a.name(), c.b.name(), what)).exp_act(format!("{:x?}", want), format!("{:x?}", got)));
+        }
+    }
+    Ok(CaseInfo::new(c.a != c.b).class(if c.route % 2 == 0 { "seed_from_u64" } else { "from_seed" }).class_if(c.a.info().seed_len != c.b.info().seed_len, "different-seed-lengths"))
+}
+
 /// static part: compile the Send/Sync probe against the current tree
 pub struct StaticProbe;
 
@@ -589,6 +691,27 @@ pub fn def(ctx: &Ctx) -> PropDef {
                 check_seed_pair,
             ));
         }
+        for ty in Ty::ALL {
+            subs.push(PSub::boxed(
+                format!("ctor-pairs/{}", ty.name()),
+                t.pick(600, 60_000),
+                move || {
+                    let len = ty.info().seed_len;
+                    let tail = prop_oneof![5 => Just(Vec::new()), 1 => proptest::collection::vec(any::<u8>(), 0..=len.saturating_sub(8))];
+                    (gens::interesting_u64(), tail, 0u8..3, 0u8..3).prop_map(move |(x, tail, first, second)| CtorPairCase { ty, x, tail, first, second }).boxed()
+                },
+                check_ctor_pair,
+            ));
+        }
+        subs.push(PSub::boxed(
+            "ctor-cross-type",
+            t.pick(6000, 600_000),
+            || {
+                let tys = Ty::ALL.to_vec();
+                (proptest::sample::select(tys.clone()), proptest::sample::select(tys), gens::interesting_u64(), 0u8..2).prop_map(|(a, b, x, route)| CrossTypeCase { a, b, x, route }).boxed()
+            },
+            check_cross_type,
+        ));
         for part in 0..t.pick(1, 4) {
             subs.push(PSub::boxed(
                 format!("fresh-process/{}", part),
@@ -638,7 +761,7 @@ pub fn def(ctx: &Ctx) -> PropDef {
     }
     PropDef {
         id: "C19",
-        rule: "scenario = up to 6 generator instances (types drawn from the 19 deterministic types + scripted JitterRng, with deliberate repeats: identical twins, same seed with another history, same type with another seed; zero seeds; scripted JitterRng also with the round count new_with_timer starts with, after a real-clock JitterRng::new() earlier in the checker process; half of the JitterRng instances are driven through their whole public API (timer_stats, set_rounds, test_timer besides the output calls, with the number of timer readings consumed in the trace), a third of those on a timer that test_timer must reject; a dedicated fresh-process sub-check runs 2-4 such instances in one fresh child process against each alone in a fresh child process; construction is part of the history and happens on the scheduled thread) + a generated schedule of (instance, worker thread) pairs over 1..4 real OS threads: a coordinator hands the boxed generator and one operation to the scheduled worker and gets both back, so exactly one operation runs at a time and the interleaving, including migrations between threads, is the generated one. Oracle: every instance's trace equals its solo replay in a fresh thread, executed both before and after the interleaved run. Free-running mode: instances partitioned over 2..8 unsynchronised threads, repeated. Fresh-process mode: the traces of instances created and advanced round-robin inside the long-lived checker process (where thousands of other generators were created before) must equal the traces each instance produces alone in a freshly spawned child process, so process-wide lazily initialised state cannot hide; in half of these cases the whole scenario itself runs in a fresh child process of its own, so that its own construction order decides the initialisation order of anything process-wide (zero seeds are frequent here). Seed-pair enumeration: for one base seed per type and run, every seed that differs from it in exactly one or two bits (32 896 pairs for 32-byte seeds) is constructed right after the base seed\u{2019}s generator and must equal the same generator constructed after an unrelated one. Static part: a probe crate asserting Send + Sync for every type is compiled against the current tree. Non-trivial = >= 2 instances of the same type advanced alternately and >= 1 thread migration; distinct by hash of the scenario.".into(),
+        rule: "scenario = up to 6 generator instances (types drawn from the 19 deterministic types + scripted JitterRng, with deliberate repeats: identical twins, same seed with another history, same type with another seed; zero seeds; scripted JitterRng also with the round count new_with_timer starts with, after a real-clock JitterRng::new() earlier in the checker process; half of the JitterRng instances are driven through their whole public API (timer_stats, set_rounds, test_timer besides the output calls, with the number of timer readings consumed in the trace), a third of those on a timer that test_timer must reject; a dedicated fresh-process sub-check runs 2-4 such instances in one fresh child process against each alone in a fresh child process; construction is part of the history and happens on the scheduled thread) + a generated schedule of (instance, worker thread) pairs over 1..4 real OS threads: a coordinator hands the boxed generator and one operation to the scheduled worker and gets both back, so exactly one operation runs at a time and the interleaving, including migrations between threads, is the generated one. Oracle: every instance's trace equals its solo replay in a fresh thread, executed both before and after the interleaved run. Free-running mode: instances partitioned over 2..8 unsynchronised threads, repeated. Fresh-process mode: the traces of instances created and advanced round-robin inside the long-lived checker process (where thousands of other generators were created before) must equal the traces each instance produces alone in a freshly spawned child process, so process-wide lazily initialised state cannot hide; in half of these cases the whole scenario itself runs in a fresh child process of its own, so that its own construction order decides the initialisation order of anything process-wide (zero seeds are frequent here). Seed-pair enumeration: for one base seed per type and run, every seed that differs from it in exactly one or two bits (32 896 pairs for 32-byte seeds) is constructed right after the base seed\u{2019}s generator and must equal the same generator constructed after an unrelated one. Constructor pairs: the same key material (a 64-bit value in little-endian bytes, zero-padded or followed by generated bytes) handed back to back to two of from_seed / seed_from_u64 / from_rng, in both orders, against the same constructions made after unrelated instances. Cross-type pairs: the same 64-bit value (or the same leading seed bytes) handed to the same constructor route of two different generator types back to back. Static part: a probe crate asserting Send + Sync for every type is compiled against the current tree. Non-trivial = >= 2 instances of the same type advanced alternately and >= 1 thread migration; distinct by hash of the scenario.".into(),
         explanation: None,
         assumptions: vec![
             "interleavings inside one operation are not enumerated (the crates contain no synchronisation primitives to instrument)".into(),
